@@ -34,6 +34,7 @@ package format
 //@   ensures#reject err != nil ==> s == nil                                                                [C07 C14 C16]
 //@   ensures#valid err == nil ==> s != nil && isvalid(s.Type) && (forall j in 0..len(s.Args) :: isvalid(s.Args[j]))   [C07 C14 C16]
 //@   ensures#progress err == nil ==> len(r.r.$rem) < len(old(r.r.$rem)) && issuffix(r.r.$rem, old(r.r.$rem))          [C07 C14 C16]
+//@   ensures#argsnonnil err == nil ==> !isnil(s.Args)                                                              [C16]
 //@   ensures#suffix issuffix(r.r.$rem, old(r.r.$rem))
 //@   fresh s when err == nil
 //@   modifies r.err, r.r.$rem, r.r.$bufd, r.r.$under.$rem
@@ -82,16 +83,18 @@ package format
 //@ func (*WrappedBase64Encoder).Close(w) (err)
 //@   requires w.enc != nil
 //@   assumes#text err == nil ==> w.dst.$out == cat(w.$out0, wrapcols(0, encof(w.$enc, w.$acc))) && w.written == len(encof(w.$enc, w.$acc)) && w.written >= 0
-//@   assumes#frame w.dst == old(w.dst) && w.enc == old(w.enc) && w.written >= old(w.written) && w.$acc == old(w.$acc) && w.$enc == old(w.$enc) && w.$out0 == old(w.$out0)
+//@   assumes#frame w.dst == old(w.dst) && w.enc == old(w.enc) && w.written >= old(w.written) && w.$acc == old(w.$acc) && w.$enc == old(w.$enc) && w.$out0 == old(w.$out0) && hasprefix(w.dst.$out, old(w.dst.$out))
 //@   modifies w.written, w.dst.$out, w.buf.$bbuf
 
 //@ func (*Stanza).Marshal(r, w) (err)
 //@   requires r != nil && w != nil
 //@   loop 1 invariant -1 <= rangeindex && rangeindex < len($ranged) && w != nil
+//@   loop 1 invariant#append hasprefix(w.$out, old(w.$out))                                                       [C13 C16]
 //@   loop 1 decreases len($ranged) - rangeindex
 //@   call Writer).Write#1 requires arg0 == w && bytes(arg1) == "->"                                               [C05 C07]
 //@   call NewWrappedBase64Encoder#1 requires arg0 == b64 && arg1 == w                                             [C05 C07]
 //@   call WrappedBase64Encoder).Write#1 requires same(arg1, r.Body)                                               [C03 C05 C07]
+//@   ensures#append hasprefix(w.$out, old(w.$out))                                                                [C13 C16]
 //@   modifies w.$out
 
 //@ func (*Header).MarshalWithoutMAC(h, w) (err)
